@@ -242,8 +242,7 @@ pub fn fuzz_entry(bytes: &[u8]) -> Verdict {
 /// bookkeeping grid (grid.rs), given to the position command as a FEN followed by ONE move — every
 /// castle, en-passant capture, promotion (all four letters), double push and capture of a corner
 /// rook of the position, plus its first ordinary move — in UCI text: the move list parser and the
-/// successor meet every special move on every file.  One engine per worker thread (a position
-/// command sets everything it needs anew); commands of one item are sent in a row.
+/// successor meet every special move on every file.  A fresh engine per item; the commands of one item are sent to it in a row.
 fn judge_grid(it: &crate::grid::GridItem, stats: &mut Stats) -> Verdict {
     let built = if it.fam == 5 { crate::grid::build_rights(it) } else { crate::grid::build(it) };
     let Some(p) = built else {
@@ -267,8 +266,14 @@ fn judge_grid(it: &crate::grid::GridItem, stats: &mut Stats) -> Verdict {
     let plies = 2 * (full - 1) + if p.stm == refchess::Color::B { 1 } else { 0 };
     let half = if p.ep.is_some() { 0 } else { half.min(plies) };
     let fen = p.fen(half, full);
+    // a fresh engine per item (a failure must reproduce from the commands saved with it); the
+    // commands of one item go to that engine in a row: same FEN, one move each, promotion siblings
+    // next to each other
+    ENGINE.with(|e| *e.borrow_mut() = None);
+    let mut sent: Vec<String> = Vec::new();
     for m in moves {
         let text = format!("position fen {} moves {}", fen, m.uci());
+        sent.push(text.clone());
         let expected = p.make(m);
         let res = ENGINE.with(|e| {
             let mut e = e.borrow_mut();
@@ -288,10 +293,10 @@ fn judge_grid(it: &crate::grid::GridItem, stats: &mut Stats) -> Verdict {
         stats.eval();
         let board = match res {
             Ok(b) => b,
-            Err(pn) => return Err(Failure::new("position-command-panic", json!({"commands": [text], "panic": crate::panic_text(&pn)}))),
+            Err(pn) => return Err(Failure::new("position-command-panic", json!({"commands": sent, "panic": crate::panic_text(&pn)}))),
         };
         if let Err(why) = eng::compare_board(&board, &expected) {
-            return Err(Failure::new("wrong-position", json!({"commands": [text], "expected": expected.fen4(), "engine": eng::board_to_pos(&board).fen4(), "why": why})));
+            return Err(Failure::new("wrong-position", json!({"commands": sent, "expected": expected.fen4(), "engine": eng::board_to_pos(&board).fen4(), "why": why})));
         }
         let i = p.info(m);
         stats.class(if i.castle { "grid_move_castle" } else if i.ep { "grid_move_en_passant" } else if i.promo { "grid_move_promotion" } else if i.double_push { "grid_move_double_push" } else if i.capture { "grid_move_capture" } else { "grid_move_ordinary" });
